@@ -49,6 +49,8 @@ func init() {
 				}
 				add("btree-s2-keyfamily1-k3", merge(base, p("ckeys", 1, "k", 3, "ops", opPut|opDelete, "index", 1, "shards", 2, "vlens", 1)))
 				add("hashmap-s1-empty-key-k3", merge(base, p("k", 3, "ops", opPut|opDelete, "index", 3, "shards", 1, "vlens", 2, "emptykey", 1)))
+				// DataFileSize from 1 byte up: smaller than any record, exactly one record, one byte more ...
+				add("hashmap-s1-tiny-dfs-k2", merge(base, p("k", 2, "ops", opPut|opDelete|opMerge, "index", 3, "shards", 1, "vlens", 2, "dfs_lo", 1, "dfs_hi", 30)))
 				// every IndexType x ShardNum{1,3} x FileIOType x SyncStrategy combination as a choice point
 				add("cfgsweep-k2", merge(base, p("cfgsweep", 2, "k", 2, "ops", opPut|opDelete|opMerge, "vlens", 1, "dfs_lo", 40, "dfs_hi", 40)))
 				add("hashmap-s3-keyfamily2-k3", merge(base, p("ckeys", 2, "k", 3, "ops", opPut|opDelete, "index", 3, "shards", 3, "vlens", 1)))
